@@ -5,7 +5,7 @@ def check(ctx):
     kernel.run_tables(ctx, 'C02', [
         ('Environment', 'step'), ('Event', '__init__'), ('Event', 'succeed'), ('Event', 'fail'), ('Event', 'trigger'),
         ('Event', 'triggered'), ('Event', 'processed'), ('Event', 'ok'), ('Event', 'value'), ('Event', 'defused'),
-        ('Process', '_resume'), ('Process', '__init__'), ('Process', 'is_alive'), ('Process', 'succeed'), ('Process', 'fail'), ('Process', 'trigger'), ('Condition', '_check'), ('Interruption', '__init__'), ('StopSimulation', 'callback'),
+        ('Process', '_resume'), ('Process', '__init__'), ('Process', 'is_alive'), ('Process', 'succeed'), ('Process', 'fail'), ('Process', 'trigger'), ('Condition', '_check'), ('Interruption', '__init__'), ('StopSimulation', 'callback'), ('Environment', 'run'),
     ])
     whomay.outcome_writers(ctx, 'C02')
     whomay.callback_list_discipline(ctx, 'C02')
